@@ -28,12 +28,19 @@ package param
 //@   loop 2 invariant [scan] !runeSeen ==> (forall j int :: 0 <= j && j <= rangeindex#2 ==> runes[j] != addRune)
 //@   call WriteRune#1 assert [fresh-rune] $1 == addRune && (forall j int :: 0 <= j && j < len(runes) ==> runes[j] != addRune)
 //@   call WriteRune#1 assert [not-dot] addRune != 46
+// string-level reading of the rune-level fact proved at the WriteRune site: the one-rune result does not
+// occur in str (assumed bridge: a rune that equals none of the runes of str is not a substring of str)
+//@   ensures-assumed ret1 == nil ==> !contains(str, ret0)
 
 //@ func setSeparators
 //@   call fieldsAsStringValues#1 assert [all-values] $0 == paramsStruct
 //@   call mergeAndUniqifyRunes#1 bind inv0 = $ret0
 //@   call randCharNotInString#1 assert [avoid-values] inv0_set && $str == inv0
 //@   call randCharNotInString#2 assert [avoid-values-and-item-sep] inv0_set && $str == inv0 + itemSep
+// what the decoder needs (it splits at the separators declared in the first two characters): the two
+// separators differ, and neither occurs in any value
+//@   ensures [separators-differ] result == nil ==> itemSep != kvSep
+//@   ensures [absent-from-every-value] result == nil ==> inv0_set && !contains(inv0, itemSep) && !contains(inv0, kvSep)
 
 //@ func FUSEParamsToEnvVars
 //@   call setSeparators#1 assert [whole-struct] $0 == iface(fuseParams)
